@@ -60,6 +60,8 @@ type PFCPConn struct {
 	// channel to signal PFCPNode on exit
 	done     chan<- string
 	shutdown chan struct{}
+	// shutdownOnce makes Shutdown idempotent: several teardown triggers may fire for one connection
+	shutdownOnce sync.Once
 
 	metrics.InstrumentPFCP
 
@@ -229,8 +231,13 @@ func (pConn *PFCPConn) Serve() {
 	}
 }
 
-// Shutdown stops connection backing PFCPConn.
+// Shutdown stops connection backing PFCPConn. Only the first call has an effect;
+// concurrent and later calls return once the first one has completed.
 func (pConn *PFCPConn) Shutdown() {
+	pConn.shutdownOnce.Do(pConn.doShutdown)
+}
+
+func (pConn *PFCPConn) doShutdown() {
 	close(pConn.shutdown)
 
 	if pConn.hbCtxCancel != nil {
